@@ -849,3 +849,159 @@ Proof.
     left. exists c. pinj Hwd. repeat split; reflexivity.
   - pinj Hwd. cbn in Hnp. congruence.
 Qed.
+
+(* ---------------- the state invariant ---------------- *)
+
+Definition spid (e : PMTElementaryStream) : Z := PMTElementaryStream_ElementaryPID e.
+
+Record ms_inv (s : mstate) : Prop := {
+  inv_keys : forall pid, es_mem pid (ms_es s) = stream_pid_in pid (ms_streams s);
+  inv_nodup : NoDup (map spid (ms_streams s));
+  inv_es_wf : forall pid ctx, es_find pid (ms_es s) = Some ctx -> cc_wf (ec_cc ctx);
+  inv_pat_wf : cc_wf (ms_pat_cc s);
+  inv_pmt_wf : cc_wf (ms_pmt_cc s)
+}.
+
+Lemma es_mem_put pid q c l : es_mem pid (es_put q c l) = (q =? pid) || es_mem pid l.
+Proof. rewrite !es_mem_find, es_find_put. destruct (q =? pid); reflexivity. Qed.
+
+Lemma es_mem_del pid q l : es_mem pid (es_del q l) = negb (q =? pid) && es_mem pid l.
+Proof. rewrite !es_mem_find, es_find_del. destruct (q =? pid); reflexivity. Qed.
+
+Lemma stream_pid_in_app p l e : stream_pid_in p (l ++ [e]) = stream_pid_in p l || (spid e =? p).
+Proof. unfold stream_pid_in. rewrite existsb_app. cbn [existsb]. rewrite orb_false_r. reflexivity. Qed.
+
+Lemma stream_pid_in_In p l : stream_pid_in p l = true <-> In p (map spid l).
+Proof.
+  unfold stream_pid_in. rewrite existsb_exists, in_map_iff. split.
+  - intros (e & Hin & E). exists e. split; [apply Z.eqb_eq, E|exact Hin].
+  - intros (e & E & Hin). exists e. split; [exact Hin|apply Z.eqb_eq, E].
+Qed.
+
+Lemma stream_pid_in_cons p e l : stream_pid_in p (e :: l) = (spid e =? p) || stream_pid_in p l.
+Proof. reflexivity. Qed.
+
+Lemma stream_pid_in_remove p q l : NoDup (map spid l) ->
+  stream_pid_in p (remove_first_pid q l) = negb (q =? p) && stream_pid_in p l.
+Proof.
+  induction l as [|e l IH]; intros Hnd; [cbn; now rewrite andb_false_r|].
+  cbn [map] in Hnd. inversion Hnd as [|x xs Hnotin Hnd']; subst x xs.
+  cbn [remove_first_pid]. change (PMTElementaryStream_ElementaryPID e) with (spid e).
+  rewrite stream_pid_in_cons. destruct (spid e =? q) eqn:Eq.
+  - apply Z.eqb_eq in Eq. destruct (q =? p) eqn:Eqp; cbn [negb andb].
+    + apply Z.eqb_eq in Eqp. destruct (stream_pid_in p l) eqn:E; [|reflexivity].
+      apply stream_pid_in_In in E. exfalso. apply Hnotin. rewrite Eq, Eqp. exact E.
+    + rewrite Eq, Eqp. reflexivity.
+  - rewrite stream_pid_in_cons, IH by exact Hnd'. destruct (q =? p) eqn:Eqp; cbn [negb andb]; [|reflexivity].
+    apply Z.eqb_eq in Eqp. rewrite <- Eqp, Eq. reflexivity.
+Qed.
+
+Lemma remove_first_incl q l x : In x (map spid (remove_first_pid q l)) -> In x (map spid l).
+Proof.
+  induction l as [|e l IH]; [tauto|]. cbn [remove_first_pid]. destruct (_ =? q).
+  - intros H. right. exact H.
+  - cbn [map In]. intros [H|H]; [left; exact H|right; apply IH, H].
+Qed.
+
+Lemma NoDup_remove_first q l : NoDup (map spid l) -> NoDup (map spid (remove_first_pid q l)).
+Proof.
+  induction l as [|e l IH]; intros Hnd; [constructor|].
+  cbn [map] in Hnd. inversion Hnd as [|x xs Hnotin Hnd']; subst.
+  cbn [remove_first_pid]. destruct (_ =? q); [exact Hnd'|].
+  cbn [map]. constructor; [|apply IH, Hnd']. intros H. apply Hnotin. eapply remove_first_incl, H.
+Qed.
+
+Lemma NoDup_app_single_aux {A} (l : list A) (x : A) : NoDup l -> ~ In x l -> NoDup (l ++ [x]).
+Proof.
+  induction l as [|a l IH]; intros Hnd Hx; [cbn; constructor; [tauto|constructor]|].
+  inversion Hnd as [|y ys Hy Hnd']; subst. cbn [app]. constructor.
+  - rewrite in_app_iff. cbn [In]. intros [H|[H|[]]]; [contradiction|]. subst. apply Hx. left. reflexivity.
+  - apply IH; [exact Hnd'|]. intros H. apply Hx. right. exact H.
+Qed.
+
+Lemma NoDup_app_single l e : NoDup (map spid l) -> stream_pid_in (spid e) l = false -> NoDup (map spid (l ++ [e])).
+Proof.
+  intros Hnd Hnot. rewrite map_app. cbn [map]. apply NoDup_app_single_aux; [exact Hnd|].
+  intros H. apply stream_pid_in_In in H. congruence.
+Qed.
+
+Lemma next_free_pid_spec fuel : forall es n p, next_free_pid fuel es n = Some p ->
+  es_mem p es = false /\ p <> C_pmtStartPID.
+Proof.
+  induction fuel as [|fuel IH]; intros es n p; cbn [next_free_pid]; [discriminate|].
+  destruct (es_mem n es || (n =? C_pmtStartPID)) eqn:E.
+  - apply IH.
+  - intros H; inversion H; subst. apply orb_false_iff in E. destruct E as [E1 E2]. split; [exact E1|]. lia.
+Qed.
+
+Lemma retransmit_frame s f sr pt : retransmit_tables s f = (sr, pt) -> pa_res pt <> Panic ->
+  ms_es sr = ms_es s /\ ms_streams sr = ms_streams s /\ ms_pcr_pid sr = ms_pcr_pid s /\
+  ms_next_pid sr = ms_next_pid s /\ ms_period sr = ms_period s /\
+  (cc_wf (ms_pat_cc s) -> cc_wf (ms_pat_cc sr)) /\ (cc_wf (ms_pmt_cc s) -> cc_wf (ms_pmt_cc sr)).
+Proof.
+  intros H Hnp. destruct (retransmit_spec _ _ _ _ H Hnp) as [(_ & -> & _)|[(_ & c & _ & -> & _)|(_ & _ & ->)]];
+    repeat match goal with |- _ /\ _ => split end; try reflexivity; try tauto.
+  - intros Hw. apply (inc_st_spec _ Hw).
+  - intros Hw. apply (inc_st_spec _ Hw).
+Qed.
+
+Lemma step_inv s o s' p : ms_inv s -> mux_step_part s o = (s', p) -> pa_res p <> Panic -> op_entry_ok o -> ms_inv s'.
+Proof.
+  intros Hinv Hstep Hnp Hen. destruct Hinv as [Hkeys Hnd Hwf Hpat Hpmt].
+  destruct o as [es|pid|pid| |d|pk]; cbn [mux_step_part] in Hstep.
+  - (* Add *)
+    unfold add_es in Hstep. fold (spid es) in Hstep.
+    destruct (negb (spid es =? 0)) eqn:Ezero.
+    + destruct (stream_pid_in (spid es) (ms_streams s)) eqn:Edup; pinj Hstep; [constructor; assumption|].
+      constructor; cbn [set_streams_es ms_es ms_streams ms_pat_cc ms_pmt_cc]; try assumption.
+      * intros q. rewrite es_mem_put, stream_pid_in_app, Hkeys. apply orb_comm.
+      * apply NoDup_app_single; assumption.
+      * intros q ctx. rewrite es_find_put. destruct (spid es =? q); [|apply Hwf].
+        intros H; inversion H; subst. apply new_cc_wf.
+    + destruct (next_free_pid _ _ _) as [np|] eqn:Enf; pinj Hstep; [|cbn in Hnp; congruence].
+      destruct (next_free_pid_spec _ _ _ _ Enf) as [Hfree _].
+      constructor; cbn [set_streams_es ms_es ms_streams ms_pat_cc ms_pmt_cc]; try assumption.
+      * intros q. rewrite es_mem_put, stream_pid_in_app, Hkeys. apply orb_comm.
+      * apply NoDup_app_single; [assumption|]. unfold spid, with_pid. cbn. rewrite <- Hkeys. exact Hfree.
+      * intros q ctx. rewrite es_find_put. destruct (np =? q); [|apply Hwf].
+        intros H; inversion H; subst. apply new_cc_wf.
+  - (* Remove *)
+    unfold remove_es in Hstep. destruct (stream_pid_in pid (ms_streams s)) eqn:Ein; pinj Hstep; [|constructor; assumption].
+    constructor; cbn [set_streams_es ms_es ms_streams ms_pat_cc ms_pmt_cc]; try assumption.
+    + intros q. rewrite es_mem_del, stream_pid_in_remove, Hkeys by assumption. reflexivity.
+    + apply NoDup_remove_first, Hnd.
+    + intros q ctx. rewrite es_find_del. destruct (pid =? q); [discriminate|apply Hwf].
+  - (* SetPCR *)
+    pinj Hstep. constructor; assumption.
+  - (* WriteTables *)
+    destruct (write_tables_spec _ _ _ Hstep Hnp) as [(c & _ & -> & _)|(? & ? & ? & ? & _ & _ & _ & _ & _ & _ & _ & _ & _ & ->)];
+      [constructor; assumption|].
+    constructor; cbn [tables_state set_tables ms_es ms_streams ms_pat_cc ms_pmt_cc]; try assumption.
+    + apply (inc_st_spec _ Hpat).
+    + apply (inc_st_spec _ Hpmt).
+  - (* WriteData *)
+    destruct (write_data_spec _ _ _ _ Hstep Hnp Hen (Hwf _)) as [(_ & -> & _)|(ctx & sr & pt & Hf & Hrt & Hnpt & Hcases)];
+      [constructor; assumption|].
+    destruct (retransmit_frame _ _ _ _ Hrt Hnpt) as (Fes & Fst & _ & _ & _ & Fpat & Fpmt).
+    destruct Hcases as [(c & _ & -> & _)|(_ & k & up & ug & un & _ & _ & _ & _ & _ & Hsame & Hfind)].
+    + constructor; rewrite ?Fes, ?Fst; auto.
+    + destruct Hsame as (_ & Sst & _ & _ & _ & _ & _ & _ & Spat & Spmt & _).
+      constructor; rewrite ?Sst, ?Spat, ?Spmt, ?Fst; auto.
+      * intros q. rewrite es_mem_find, Hfind, Fes. destruct (MuxerData_PID d =? q) eqn:E.
+        -- apply Z.eqb_eq in E. subst q. rewrite <- Hkeys, es_mem_find, Hf. reflexivity.
+        -- rewrite <- Hkeys, es_mem_find. reflexivity.
+      * intros q c. rewrite Hfind, Fes. destruct (MuxerData_PID d =? q); [|apply Hwf].
+        intros H; inversion H; subst. cbn [ec_cc]. apply iter_inc_wf. eapply Hwf, Hf.
+  - (* WritePacket *)
+    pinj Hstep. constructor; assumption.
+Qed.
+
+Lemma new_muxer_inv period : ms_inv (new_muxer period).
+Proof.
+  constructor; cbn [new_muxer ms_es ms_streams ms_pat_cc ms_pmt_cc].
+  - reflexivity.
+  - constructor.
+  - intros pid ctx H. discriminate.
+  - apply new_cc_wf.
+  - apply new_cc_wf.
+Qed.
